@@ -1444,3 +1444,48 @@ Proof.
       - apply Z.leb_gt in E0. apply orb_true_iff. left. apply Z.ltb_lt. lia. }
     destruct Hout as [Hout ->]. rewrite Hout in HSp. inversion HSp; subst x' sr. cbn [x_st]. split; [assumption | exact I].
 Qed.
+
+(* ================= 13. round 4: DFANlablist paging and ANend ================================================= *)
+(** the ref-collecting loop of DFANIlablist (bound and store condition regenerated from dfan.c) delivers the refs
+    startpos .. startpos + listsize - 1 of the tag *)
+Lemma lablist_collect_spec : forall nrefs listsize startpos refs i j, 0 <= i -> i + zlen refs = nrefs ->
+  lablist_collect refs i j nrefs listsize startpos =
+  firstn (Z.to_nat (listsize - j)) (skipn (Z.to_nat (startpos - 1 - i)) refs).
+Proof.
+  intros nrefs listsize startpos. induction refs as [|r t IH]; intros i j Hi Hn.
+  - simpl. rewrite skipn_nil, firstn_nil. reflexivity.
+  - cbn [lablist_collect]. unfold LABLIST_loop, LABLIST_store, truth.
+    assert (Hlt : (i <? nrefs) = true) by (apply Z.ltb_lt; unfold zlen in *; simpl length in Hn; lia).
+    rewrite Hlt. cbn [negb andb Z.eqb].
+    destruct (j <? listsize) eqn:Ej.
+    + apply Z.ltb_lt in Ej. cbn [negb andb Z.eqb].
+      assert (Hn' : i + 1 + zlen t = nrefs) by (unfold zlen in *; simpl length in Hn; lia).
+      destruct (startpos - 1 <=? i) eqn:Es.
+      * apply Z.leb_le in Es. cbn [negb Z.eqb]. rewrite (IH (i + 1) (j + 1)) by lia.
+        replace (Z.to_nat (startpos - 1 - i)) with 0%nat by lia. replace (Z.to_nat (startpos - 1 - (i + 1))) with 0%nat by lia.
+        cbn [skipn]. replace (Z.to_nat (listsize - j)) with (S (Z.to_nat (listsize - (j + 1)))) by lia. reflexivity.
+      * apply Z.leb_gt in Es. cbn [negb Z.eqb]. rewrite (IH (i + 1) j) by lia.
+        replace (Z.to_nat (startpos - 1 - i)) with (S (Z.to_nat (startpos - 1 - (i + 1)))) by lia. reflexivity.
+    + apply Z.ltb_ge in Ej. cbn [negb andb Z.eqb]. replace (Z.to_nat (listsize - j)) with 0%nat by lia. reflexivity.
+Qed.
+
+Lemma lablist_page_refs : forall refs listsize startpos, 1 <= startpos ->
+  lablist_collect refs 0 0 (zlen refs) listsize startpos = firstn (Z.to_nat listsize) (skipn (Z.to_nat (startpos - 1)) refs).
+Proof.
+  intros refs listsize startpos Hs. rewrite (lablist_collect_spec (zlen refs) listsize startpos refs 0 0) by lia.
+  rewrite Z.sub_0_r. replace (startpos - 1 - 0) with (startpos - 1) by lia. reflexivity.
+Qed.
+
+(** ANend treats every annotation type: each of the four trees is freed when it exists, and all four tree pointers
+    and counters are re-initialised (lists regenerated from mfan.c: a loop that stops early, or a forgotten type,
+    changes them or makes the translator fail) *)
+Lemma ANend_all_types :
+  Permutation ANend_freed_types [0; 1; 2; 3] /\ Permutation ANend_tbbtdfree_types [0; 1; 2; 3] /\
+  ANend_tree_reset_types = [AN_DATA_LABEL; AN_DATA_DESC; AN_FILE_LABEL; AN_FILE_DESC] /\
+  ANend_num_reset_types = [AN_DATA_LABEL; AN_DATA_DESC; AN_FILE_LABEL; AN_FILE_DESC].
+Proof.
+  assert (P : Permutation [2; 3; 0; 1] [0; 1; 2; 3]).
+  { apply (perm_trans (l' := [2; 0; 3; 1])); [repeat constructor|]. apply (perm_trans (l' := [0; 2; 3; 1])); [repeat constructor|].
+    apply perm_skip. apply (perm_trans (l' := [2; 1; 3])); [repeat constructor|]. apply (perm_trans (l' := [1; 2; 3])); repeat constructor. }
+  repeat split; try exact P; reflexivity.
+Qed.
